@@ -3,11 +3,11 @@ synthetic energies); every 16th run index goes to fe_app_sim in statics mode wit
 FE-level helper-VJP / adjoint-function-space audit switched on."""
 from sim import adjoint_sim, fe_app_sim
 
-FE_EVERY = 24
+FE_EVERY = {'quick': 48, 'thorough': 16}
 
 
 def gen_program(rng, prop, tier, run_index):
-    if run_index % FE_EVERY == 7:
+    if run_index % FE_EVERY.get(tier, 48) == 7:
         return fe_app_sim.gen_program(rng, 'C07', tier, run_index)
     return adjoint_sim.gen_program(rng, prop, tier, run_index)
 
